@@ -65,6 +65,14 @@ pub mod verif {
         static STALE_LOG: RefCell<Vec<(&'static str, usize, u32, u32)>> = const { RefCell::new(Vec::new()) };
         static ALLOC_ORDINAL: Cell<u64> = const { Cell::new(0) };
         static COLLECT_AT: RefCell<Vec<u64>> = const { RefCell::new(Vec::new()) };
+        static COLLECTIONS: Cell<u64> = const { Cell::new(0) };
+    }
+    /// Number of mark-and-sweep cycles run on this thread since the last reset.
+    pub fn collections() -> u64 {
+        COLLECTIONS.with(|c| c.get())
+    }
+    pub(super) fn note_collection() {
+        COLLECTIONS.with(|c| c.set(c.get() + 1));
     }
     /// Record a dereference through a handle whose slot was swept or reused.
     pub fn note_stale(kind: &'static str, index: usize, handle_gen: u32, slot_gen: u32) {
@@ -86,6 +94,7 @@ pub mod verif {
         STALE_LOG.with(|l| l.borrow_mut().clear());
         ALLOC_ORDINAL.with(|c| c.set(0));
         COLLECT_AT.with(|l| l.borrow_mut().clear());
+        COLLECTIONS.with(|c| c.set(0));
     }
     /// Arm "collect right before allocation #i" (1-based ordinals counted since reset).
     pub fn arm_collect_at(ordinals: Vec<u64>) {
@@ -790,6 +799,8 @@ impl<T: Default + Reset + Traceable> Space<T> {
 
     /// Run mark-and-sweep collection
     fn collect(&mut self) {
+        #[cfg(tsrun_verif)]
+        verif::note_collection();
         self.mark();
         self.sweep();
         self.net_allocs = 0;
